@@ -47,6 +47,9 @@ class Gen:
             return ("len", i, n)
         if k < 0.72 and self.strs:
             i, n = r.choice(self.strs)
+            if getattr(self, "in_range_idx_only", False):
+                # without bounds checks an index outside the contents is the user's undefined behaviour: stay inside
+                return ("idx", i, n, ("lit", r.choice([0, 1, 1, 2])))
             return ("idx", i, n, self.int_expr(d + 2) if r.random() < 0.4 else ("lit", r.choice([-1, 0, 1, 2, 3, 4, 7, 8, 8, 9, 255, 256])))   # (the output is str[8]: at and around the size)
         if k < 0.80 and self.allow_last:
             return ("last",)
@@ -183,13 +186,17 @@ def make_case(rng):
     idx += 1
     sidx = None
     if has_str or ctx == "appendc":
-        outs_src.append('out str[8] st = "aZ~";')
-        outs_tok += ["out", "st", "str", "8", "1", "8", "defs", "3", "97", "90", "126"]
+        # (a byte >= 0x80 in the middle: an indexed byte is 0..255 whatever the element type and the indexing mode)
+        mid = rng.choice([90, 233, 128, 255])
+        outs_src.append(f'out str[8] st = "a\\x{mid:02x}~";')
+        outs_tok += ["out", "st", "str", "8", "1", "8", "defs", "3", "97", str(mid), "126"]
         sidx = idx
         strs.append((idx, "st"))
         idx += 1
     allow_last = ctx in ("assign", "appendc", "condact", "assign_bool")
     g = Gen(rng, ints, strs, allow_last)
+    unsafe = rng.random() < 0.3
+    g.in_range_idx_only = unsafe
     if ctx in ("assign", "appendc"):
         e = g.int_expr()
     else:
@@ -234,7 +241,7 @@ def make_case(rng):
               "state", "fail", "0", "0"]
     t += ["acts", "0", "0", "0", "0", "end"]
     return {"src": src, "machine": " ".join(t), "ctx": ctx, "ints": int_decls, "expr": src_e, "u8": u8,
-            "args": ["-O1"] + (["-fstrings-as-u8"] if u8 else [])}
+            "args": ["-O1"] + (["-fstrings-as-u8"] if u8 else []) + (["-funsafe-string-indexing"] if unsafe else [])}
 
 
 def work(job):
